@@ -237,7 +237,10 @@ pub fn replay(path: &str) -> ! {
     if v["property"].as_str() == Some("C15") {
         crate::c15::replay(w);
     }
-    if v["property"].as_str() == Some("C12") {
+    if v["property"].as_str() == Some("C19") {
+        crate::c19::replay(w);
+    }
+    if v["property"].as_str() == Some("C12") && w["params"].is_null() {
         // the client half is 64 handshakes: re-run them all
         println!("replaying the client half of C12 (recorded: {})", w);
         crate::c12c::run(Tier::Quick);
